@@ -1,9 +1,78 @@
-// Package c03: check for property C03 (stub until implemented).
+// Package c03: key generation yields a consistent (t,n) sharing of one key (NETMC + result oracle).
 package c03
 
-import "verif/internal/core"
+import (
+	"fmt"
+	"runtime"
 
-// Implemented reports whether this check is built.
-const Implemented = false
+	"verif/internal/core"
+	"verif/internal/protomc"
+	"verif/internal/scen"
+)
 
-func Run(r *core.Run) { r.Cap("not implemented") }
+const Implemented = true
+
+type job struct {
+	sc   protomc.Scenario
+	mode string
+	devs int
+}
+
+func Run(r *core.Run) {
+	w := runtime.NumCPU()
+	var jobs []job
+	add := func(sc protomc.Scenario, mode string, devs int) { jobs = append(jobs, job{sc, mode, devs}) }
+	// EdDSA: all (n,t) with n<=3 and every id pattern: all schedules (decomposed)
+	for _, pat := range []string{"small", "near-q", "large", "multiples"} {
+		add(scen.EdKeygen(pat, 2, 1, r.Seed), "", 0)
+		add(scen.EdKeygen(pat, 3, 1, r.Seed), "", 0)
+		add(scen.EdKeygen(pat, 3, 2, r.Seed), "", 0)
+	}
+	// EdDSA n=4: FIFO + every 1-deviation run
+	add(scen.EdKeygen("small", 4, 1, r.Seed), "dev", 1)
+	add(scen.EdKeygen("near-q", 4, 3, r.Seed), "dev", 1)
+	// ECDSA (vendored pre-parameters): n=2 FIFO + 1 deviation in quick
+	add(scen.EcKeygen("small", 2, 1, r.Seed), "dev", 1)
+	add(scen.EcKeygen("near-q", 3, 2, r.Seed), "dev", 0)
+	if r.Tier == "thorough" {
+		add(scen.EdKeygen("large", 4, 2, r.Seed), "dev", 2)
+		add(scen.EdKeygen("small", 5, 2, r.Seed), "dev", 1)
+		add(scen.EdKeygen("near-q", 5, 4, r.Seed), "dev", 1)
+		add(scen.EcKeygen("large", 2, 1, r.Seed), "", 0) // all schedules, decomposed
+		add(scen.EcKeygen("small", 3, 1, r.Seed), "dev", 1)
+		add(scen.EcKeygen("multiples", 3, 2, r.Seed), "dev", 0)
+		add(scen.EcKeygen("large", 4, 2, r.Seed), "dev", 0)
+		add(scen.EcKeygen("small", 5, 2, r.Seed), "dev", 0)
+		add(scen.EcKeygen("near-q", 5, 4, r.Seed), "dev", 0)
+	}
+	var states, trans, traces int
+	for _, j := range jobs {
+		o := protomc.Options{C07: true, Mode: j.mode, Deviations: j.devs, Workers: w, JointValidate: 10, ResultOracle: scen.ResultOracle(j.sc)}
+		st := protomc.Explore(r, j.sc, o)
+		states += st.States
+		trans += st.Transitions
+		traces += st.JointReplays
+		if st.Capped {
+			r.Cap("state cap hit in " + j.sc.Name)
+		}
+		mode := j.mode
+		if mode == "" {
+			mode = "all schedules (decomposed)"
+		} else {
+			mode = fmt.Sprintf("complete runs with <=%d deviations from FIFO", j.devs)
+		}
+		r.Distinct("terminal_outcomes", fmt.Sprintf("%s#%d", j.sc.Name, st.DistinctOutcomes))
+		r.Set("cfg:"+j.sc.Name, map[string]interface{}{"mode": mode, "states": st.States, "transitions": st.Transitions, "terminal_states_or_runs": st.Terminals,
+			"distinct_terminal_outcomes": st.DistinctOutcomes, "joint_replays": st.JointReplays})
+		if len(st.Samples) > 0 {
+			r.Sample(6, st.Samples[0])
+		}
+		fmt.Printf("  %-50s %-45s states=%d trans=%d terminals/runs=%d outcomes=%d\n", j.sc.Name, mode, st.States, st.Transitions, st.Terminals, st.DistinctOutcomes)
+	}
+	r.Set("states", states)
+	r.Set("transitions", trans)
+	r.Set("traces_validated_against_impl", traces)
+	r.Set("oracle", "in every terminal state: identical public view at all parties; Xi*G = BigXj[i]; every (t+1)-subset interpolates (in the exponent and on the secrets) to the group key and to every other party's public share (degree <= t); group key = sum of the constant-term commitments opened in the round-2 broadcasts; per-index slots hold the right party's Paillier modulus / NTilde / h1 / h2 / id; Paillier private key consistent")
+	r.Assume("party independence validated by joint replays (traces_validated_against_impl)")
+	r.Assume("ECDSA parties use the 5 vendored pre-parameter sets (n <= 5)")
+}
